@@ -54,7 +54,7 @@ BASE = dict(Clients={"A", "B"}, Sides={"A", "B", "X"}, Nameplates={"4", "5"},
             AppId=Raw('[c \\in {"A","B"} |-> "app"]'),
             CodeChoices=Raw('[c \\in {"A","B"} |-> {<<"4", "w">>}]'),
             AllowAllocate=set(), AllowInput=set(), MaxSend=0, MaxDrops=0, MaxDup=0, MaxSwap=0, MaxInject=0,
-            MaxTamper=0, MaxHelper=0, KnownErrs=set(), InjectSet=Raw("{}"), LateFrames=False, ReentKinds=set(), WelcomeErr=False, ConnFails=False, MaxSrvErr=0, MaxCloseAt=0)
+            MaxTamper=0, MaxHelper=0, KnownErrs=set(), InjectSet=Raw("{}"), LateFrames=False, ReentKinds=set(), WelcomeErr=False, ConnFails=False, MaxSrvErr=0, MaxAborts=0, MaxCloseAt=0)
 
 
 DELEG = Raw('[c \\in {"A","B"} |-> "delegated"]')
@@ -92,6 +92,7 @@ def cfgs_for(prop, tier):   # noqa: F811  (replaces the draft above)
     elif prop == "C09":
         out["drop_sender"] = mk(MaxSend=F(1, 0), MaxDrops=F(1, 0))
         out["drop_receiver"] = mk(MaxSend=F(1, 0), MaxDrops=F(0, 1))
+        out["drop_abort"] = mk(MaxSend=F(1, 0), MaxDrops=F(1, 0), MaxAborts=1)
         if not q:
             out["two_drops_one_side"] = mk(MaxSend=F(1, 0), MaxDrops=F(2, 0))
             out["drop_each"] = mk(MaxSend=F(1, 0), MaxDrops=F(1, 1))
@@ -191,7 +192,7 @@ class RealRun:
         for name, cl in self.world.clients.items():
             if getattr(cl, "closed_at", None) is None and any(k == "closed" for k, _ in cl.events):
                 cl.closed_at = self.world.stepno
-        if act["a"] in ("Drop", "Dup", "SwapS2C", "TamperS2C", "Inject", "AppClose", "ConnFail", "LateDeliver", "AppAllocate", "SrvSend",
+        if act["a"] in ("Drop", "Dup", "SwapS2C", "TamperS2C", "Inject", "AppClose", "ConnFail", "ConnAbort", "LateDeliver", "AppAllocate", "SrvSend",
                         "AppInput", "ArmClose"):
             self.nontrivial.add(act["a"])
         if spec_act is not None:
@@ -603,6 +604,8 @@ def world_to_spec(run, a):
         return {"a": "Dup", "c": cname(a["k"]), "x": str(a["m"] + 1), "y": "*"}
     if t == "SwapS2C":
         return {"a": "Swap", "c": cname(a["k"]), "x": str(a["i"] + 1), "y": "*"}
+    if t == "ConnAbort":
+        return {"a": "ConnAbort", "c": a["c"], "x": "*", "y": "*"}
     if t == "SrvSend" and a["msg"].get("type") == "error":
         return {"a": "SrvError", "c": cname(a["k"]), "x": "*", "y": "*"}
     return None
@@ -648,6 +651,7 @@ def random_real_walk(tid, rng, prop, steps=60):
               "send": {"A": rng.choice([0, 1, 2]), "B": rng.choice([0, 1, 2])},
               "close": prop in ("C08", "C14", "C18") and rng.random() < 0.8,
               "welcome_error": prop in ("C08", "C14", "C18") and rng.random() < 0.3}
+    budget["Abort"] = rng.choice([0, 1, 2]) if prop in ("C09", "C08", "C14", "C18", "C03") else 0
     budget["SrvErr"] = rng.choice([0, 0, 1]) if prop in ("C08", "C14", "C18") else 0
     if prop in ("C03", "C09", "C02", "C01"):
         budget["close"] = False
@@ -656,6 +660,7 @@ def random_real_walk(tid, rng, prop, steps=60):
         codes["B"] = rng.choice(["4-gamma-delta", "5-alpha-beta"])
     coded = set()
     closed = set()
+    hostile = False         # the server erred / refused / the first connection failed: closing is then legitimate
     late_budget = {"A": 4, "B": 4}
     for _ in range(steps):
         acts = []
@@ -666,6 +671,9 @@ def random_real_walk(tid, rng, prop, steps=60):
             if t == "Drop":
                 if budget["Drop"] > 0 and rng.random() < 0.15:
                     acts.append(a)
+                continue
+            if t == "ConnOpen" and budget["Abort"] > 0 and rng.random() < 0.3 and getattr(w.clients[a["c"]].boss._RC, "_have_made_a_successful_connection", False):
+                acts.append({"a": "ConnAbort", "c": a["c"]})
                 continue
             if t == "ConnOpen" and budget["welcome_error"] and rng.random() < 0.3:
                 # the operator has told the server to turn clients away (welcome.error), possibly only on a reconnect
@@ -721,6 +729,11 @@ def random_real_walk(tid, rng, prop, steps=60):
             late_budget[a["c"]] -= 1
         elif t == "SrvSend":
             budget["SrvErr"] -= 1
+            hostile = True
+        elif t == "ConnAbort":
+            budget["Abort"] -= 1
+        if t in ("ConnFail", "Inject", "TamperS2C") or (t == "ConnOpen" and a.get("welcome_error")):
+            hostile = True
         run.apply(a, spec_act=world_to_spec(run, a))
     drained = run.drain()
     # a lazy application finally asks for everything that has been waiting for it (one request stays outstanding)
@@ -737,8 +750,12 @@ def random_real_walk(tid, rng, prop, steps=60):
             if cl.mode == "deferred" and any(k == "closed" for k, _ in cl.events):
                 for kind in ("code", "message", "message", "message", "verifier"):
                     run.apply({"a": "AppGet", "c": c, "kind": kind})
+    # whether everything must have arrived is decided by what the *environment* did, not by where the wormholes ended
+    # up: after drops, aborted reconnects, duplicates and reorderings only - and a fair completion with both servers
+    # reachable - both sides must be connected again with everything delivered (a wormhole that gave up is a failure)
+    benign = not (run.tracker.tampered or hostile)
     goal = drained and not closed and coded == {"A", "B"} and codes["A"] == codes["B"] and \
-        all(w.live_conn(c) is not None for c in w.clients.values())
+        (benign or all(w.live_conn(c) is not None for c in w.clients.values()))
     return run, goal, drained
 
 
@@ -821,7 +838,7 @@ def run_trace_validation(wd, lines, ntraces):
             f.write(json.dumps(l) + "\n")
     consts = dict(BASE)
     consts.update(MaxSend=F(9, 9), MaxDrops=F(9, 9), AllowClose={"A", "B"}, MaxDup=9, MaxSwap=9, AllowAllocate={"A", "B"},
-                  AllowInput={"A", "B"}, LateFrames=True, WelcomeErr=True, ConnFails=True, MaxHelper=99, MaxSrvErr=9,
+                  AllowInput={"A", "B"}, LateFrames=True, WelcomeErr=True, ConnFails=True, MaxHelper=99, MaxSrvErr=9, MaxAborts=9,
                   ReentKinds={"welcome", "code", "key", "verifier", "versions", "message"},
                   CodeChoices=Raw('[c \\in {"A","B"} |-> {<<"4", "w">>, <<"4", "v">>, <<"5", "w">>}]'))
     common.write_model(wd, "MC_Trace", "WormholeTrace", consts, spec="TSpec", constraint="Mark", postcondition="Post",
